@@ -157,6 +157,17 @@ def run(tier, seed, replay):
         cfg = cfggen.Gen(rr).config()
         nf = rr.randint(2, 5)
         parts = cfggen.split_files(rr, cfg, nf)
+        # make the ORDER of the files matter (an attribute-level split alone is almost order-independent): the file before each file
+        # holds another value for whatever that file defines - it is overridden if and only if the files are merged in the documented order
+        for j in range(len(parts) - 1, 0, -1):
+            later, earlier = parts[j] or {}, parts[j - 1]
+            pk = list((later.get("parameters") or {}))
+            earlier.setdefault("parameters", {})
+            for key in pk or ["zz_order"]:
+                if key not in earlier["parameters"]:
+                    earlier["parameters"][key] = "decoy-from-file-%d" % (j - 1)
+            if not pk:
+                later.setdefault("parameters", {})["zz_order"] = "file-%d" % j
         if rr.random() < 0.3:
             parts.insert(rr.randrange(len(parts) + 1), {})           # the empty file is the identity
         # file names / patterns chosen so that glob order, pattern order and lexical order of cleaned paths all differ
